@@ -132,7 +132,14 @@ func cmdRun(prop, tier, only string, verbose bool, workers int, solverBin string
 		}
 	}
 
-	rc := RunConfig{Workers: workers, SolverBin: solverBin, TimeoutMs: tc.TimeoutMs, MaxSteps: tc.MaxSteps,
+	xbin := os.Getenv("VERIF_XCHECK")
+	if xbin == "" && tier == "thorough" {
+		xbin = "z3-new"
+	}
+	if xbin == "none" {
+		xbin = ""
+	}
+	rc := RunConfig{XCheckBin: xbin, Workers: workers, SolverBin: solverBin, TimeoutMs: tc.TimeoutMs, MaxSteps: tc.MaxSteps,
 		MaxDecisions: tc.MaxDecisions, MaxPaths: tc.MaxPaths, Deadline: tc.Deadline, Verbose: verbose}
 	if os.Getenv("VERIF_BRANCHSTATS") != "" {
 		branchStats = map[string]int{}
@@ -264,6 +271,13 @@ func cmdRun(prop, tier, only string, verbose bool, workers int, solverBin string
 	notes := map[string]bool{}
 	var samples []interface{}
 	incomplete := []string{}
+	xchecked := 0
+	for _, hr := range results {
+		xchecked += hr.XChecked
+		for _, d := range hr.XDisagree {
+			engineErrors = append(engineErrors, "solver disagreement: "+hr.Name+": "+d)
+		}
+	}
 	for _, hr := range results {
 		totalPaths += hr.Paths
 		totalSteps += hr.Steps
@@ -352,7 +366,9 @@ func cmdRun(prop, tier, only string, verbose bool, workers int, solverBin string
 		"bounds": map[string]interface{}{"max_symbolic_decisions_per_path": tc.MaxDecisions, "max_ssa_instructions_per_path": tc.MaxSteps,
 			"max_paths_per_harness": tc.MaxPaths, "solver_timeout_ms": tc.TimeoutMs, "wall_deadline_s": tc.Deadline.Seconds(),
 			"note": "sizes and value ranges are stated in each harness (vChoose/vAssume); a path that exhausts a bound is listed under 'incomplete' and is not counted as discharged"},
-		"solver": solverBin + " (one process per worker, push/pop)",
+		"solver":                 solverBin + " (one process per worker, push/pop)",
+		"cross_check_solver":     xbin,
+		"cross_checked_verdicts": xchecked,
 	}
 	for _, u := range undischarged {
 		fmt.Println("UNDISCHARGED", u)
